@@ -2334,6 +2334,48 @@ class Desugar(ast.NodeTransformer):
         n.test = test
         return [ast.Assign(targets=[ast.Name(id=w.target.id, ctx=ast.Store())], value=w.value, lineno=n.lineno), n]
 
+    def visit_For(self, n):
+        """`for x in (e1, ..., ek): BODY` over a tuple or list DISPLAY of at most four elements, BODY without break /
+        continue, no else clause: the display is evaluated first (into fresh names), then BODY runs once per element --
+        `t1 = e1; ...; tk = ek; x = t1; BODY; ...; x = tk; BODY`"""
+        self.generic_visit(n)
+        import copy
+        if not (isinstance(n.iter, (ast.Tuple, ast.List)) and 1 <= len(n.iter.elts) <= 4 and isinstance(n.target, ast.Name)
+                and not n.orelse and not any(isinstance(e, ast.Starred) for e in n.iter.elts)):
+            return n
+        # a break / continue that belongs to THIS loop (not to a loop nested in the body) rules the unrolling out
+        def own_jump(stmts):
+            for st in stmts:
+                if isinstance(st, (ast.Break, ast.Continue)):
+                    return True
+                if isinstance(st, (ast.For, ast.While)):
+                    if own_jump(st.orelse):
+                        return True
+                    continue
+                for f in ("body", "orelse", "finalbody"):
+                    if own_jump(getattr(st, f, []) or []):
+                        return True
+                for h in getattr(st, "handlers", []) or []:
+                    if own_jump(h.body):
+                        return True
+            return False
+        if own_jump(n.body):
+            return n
+        used = {x.id for x in ast.walk(n) if isinstance(x, ast.Name)}
+        temps = []
+        for i in range(len(n.iter.elts)):
+            t = "%s_%d_" % (n.target.id, i + 1)
+            if t in used:
+                return n
+            temps.append(t)
+        out = [ast.Assign(targets=[ast.Name(id=t, ctx=ast.Store())], value=e, lineno=n.lineno)
+               for t, e in zip(temps, n.iter.elts)]
+        for t in temps:
+            out.append(ast.Assign(targets=[ast.Name(id=n.target.id, ctx=ast.Store())],
+                                  value=ast.Name(id=t, ctx=ast.Load()), lineno=n.lineno))
+            out += [copy.deepcopy(st) for st in n.body]
+        return out
+
     def visit_While(self, n):
         self.generic_visit(n)
         r = self._leading_walrus(n.test)
